@@ -859,3 +859,52 @@ fire("c18-primary-event-reports-amount-before-main-share", "C18", ["C18.amount"]
      (DISTR, "	defaultShare := coinsToDistributeDec\n", "	defaultShare := coinsToDistributeDec\n	leftInMain := sdk.NewDecCoins()\n"),
      (DISTR, C18C_OLD1, C18C_NEW1),
      (DISTR, "		localRemains = k.addSharesToAccountState(ctx, localRemains, &accountDefault, defaultShare, findFunc)", "		localRemains = k.addSharesToAccountState(ctx, localRemains, &accountDefault, defaultShare.Sub(leftInMain), findFunc)"))
+
+# ---------------- round 4: accumulator-style total in the minting routine ----------------
+MINTGO = "x/cfeminter/keeper/mint.go"
+_ACC = [
+    (MINTGO, "	return k.mint(ctx, &params, 0)", "	return k.mint(ctx, &params, 0, sdk.ZeroInt())"),
+    (MINTGO, "func (k Keeper) mint(ctx sdk.Context, params *types.Params, level int) (math.Int, error) {", "func (k Keeper) mint(ctx sdk.Context, params *types.Params, level int, mintedSoFar math.Int) (math.Int, error) {"),
+    (MINTGO, """			"previousMinter", previousMinter.GetMinterJSON(), "expectedAmountToMint", expectedAmountToMint, "amount", amount)
+		return sdk.ZeroInt(), nil""", """			"previousMinter", previousMinter.GetMinterJSON(), "expectedAmountToMint", expectedAmountToMint, "amount", amount)
+		return mintedSoFar, nil"""),
+    (MINTGO, "		result = amount\n", "		result = mintedSoFar.Add(amount)\n"),
+    (MINTGO, "		result = minted.Add(amount)\n", "		result = minted\n"),
+]
+silent("c18-total-accumulator-style", ["C18", "C02", "C01"], *(_ACC + [(MINTGO, "		minted, err := k.mint(ctx, params, level+1)", "		minted, err := k.mint(ctx, params, level+1, mintedSoFar.Add(amount))")]))
+fire("c18-total-accumulator-drops-handed-in", ["C18", "C02"], ["C18.total", "C02.carry"], *(_ACC + [(MINTGO, "		minted, err := k.mint(ctx, params, level+1)", "		minted, err := k.mint(ctx, params, level+1, amount)")]))
+fire("c18-total-successor-dropped", ["C18", "C02"], ["C18.total", "C02.carry"], (MINTGO, "		result = minted.Add(amount)\n", "		result = amount\n"))
+fire("c18-total-own-amount-dropped", ["C18", "C02"], ["C18.total", "C02.carry"], (MINTGO, "		result = minted.Add(amount)\n", "		result = minted\n"))
+
+# ---------------- round 4: selection of the current / previous period by sequence id ----------------
+fire("c02-select-prev-smallest", ["C02", "C10", "C19"], ["C02.select", "C10.select", "C19.select"],
+     (MINTGO, "minter.SequenceId < currentId && minter.SequenceId > previousMinter.SequenceId", "minter.SequenceId < currentId && minter.SequenceId < previousMinter.SequenceId"))
+fire("c02-select-prev-lte", ["C02"], ["C02.select"],
+     (MINTGO, """		if previousMinter == nil {
+			if minter.SequenceId < currentId {""", """		if previousMinter == nil {
+			if minter.SequenceId <= currentId {"""))
+fire("c02-select-break-at-current", ["C02"], ["C02.select"],
+     (MINTGO, """		if minter.SequenceId == currentId {
+			currentMinter = minter
+		}""", """		if minter.SequenceId == currentId {
+			currentMinter = minter
+			break
+		}"""))
+fire("c02-select-first-lower", ["C02"], ["C02.select"],
+     (MINTGO, """		} else {
+			if minter.SequenceId < currentId && minter.SequenceId > previousMinter.SequenceId {
+				previousMinter = minter
+			}
+		}""", """		}"""))
+silent("c02-select-merged-conditions", ["C02", "C10", "C19"],
+       (MINTGO, """		if previousMinter == nil {
+			if minter.SequenceId < currentId {
+				previousMinter = minter
+			}
+		} else {
+			if minter.SequenceId < currentId && minter.SequenceId > previousMinter.SequenceId {
+				previousMinter = minter
+			}
+		}""", """		if minter.SequenceId < currentId && (previousMinter == nil || previousMinter.SequenceId < minter.SequenceId) {
+			previousMinter = minter
+		}"""))
